@@ -146,10 +146,12 @@ ALPHABETS = {
 class Real:
     """A materialised state: scratch repo + what the operations printed."""
 
-    def __init__(self, s):
+    def __init__(self, s, out_dir=None):
         self.s = s
         self.r = sc.Repo(s, "r", TARGETS, commands={"a": {"build": "x"}, "b": {"build": "x"}},
-                         files={"b/keep.txt": "keep\n", "a/keep.txt": "keep\n", ".gitignore": "monorail-out\n*.log\n"})
+                         cfg_extra={"out_dir": out_dir} if out_dir else None,
+                         files={"b/keep.txt": "keep\n", "a/keep.txt": "keep\n",
+                                ".gitignore": "monorail-out\n*.log\n" + ("%s\n" % out_dir.split("/")[0] if out_dir else "")})
         self.commit_ids = [self.r.head()]
         self.last_update = None   # checkpoint object printed by the last successful update
         self.update_defects = []
@@ -735,11 +737,12 @@ def inv_c05(model, real, tier):
 
 
 def state_task(task):
-    prop, tier, ops = task
+    prop, tier, ops = task[0], task[1], task[2]
+    out_dir = task[3] if len(task) > 3 else None
     s = sc.Scratch("repo")
     try:
         model = ModelState()
-        real = Real(s)
+        real = Real(s, out_dir)
         for op in ops:
             model = model.apply(op)
             real.apply(op)
@@ -754,7 +757,7 @@ def state_task(task):
             v, evals, obs = inv_c07(model, real, ops, tier)
         else:
             v, evals, obs = inv_c05(model, real, tier)
-        return {"violations": [{"sig": sig, "detail": d, "rank": len(ops), "case": {"ops": ops}} for sig, d in v],
+        return {"violations": [{"sig": sig, "detail": d, "rank": len(ops), "case": {"ops": ops, "out_dir": out_dir}} for sig, d in v],
                 "evals": evals, "obs": obs, "nontrivial": 1 if (model.cp is not None and model.changed_vs_head()) else 0}
     except common.EngineError as e:
         return {"engine_error": "%s after %s" % (e, ops)}
@@ -843,6 +846,17 @@ def bfs(prop, tier, depth, wall_cap=None):
             agg["distinct_nontrivial"] += r["nontrivial"]
             agg["violations"].extend(r["violations"])
         agg["update_pair_cases"] = len(tasks)
+    if prop in ("C07", "C19", "C02", "C05"):
+        # the same invariants under a custom, nested output directory whose name contains a space
+        seqs = [[], [["CPU"]], [["CPUP"]], [["W", "b/m.txt", "1"], ["CPUP"]], [["CPU"], ["CPD"]], [["CPUP"], ["OUTD"]],
+                [["W", "a/f.txt", "2"], ["CPU"], ["OUTD"], ["CPUP"]], [["W", "b/n \u00e9.txt", "1"], ["ADD"], ["COMMIT"], ["CPUI", 0]],
+                [["D", "a/f.txt"], ["CPUP"], ["CPD"], ["CPU"]], [["GMV", "a/f.txt", "b/m.txt"], ["CPU"], ["W", "b/m.txt", "2"]]]
+        for r in common.pmap(state_task, [(prop, tier, ops, "var/mr out") for ops in seqs]):
+            if "engine_error" in r:
+                raise common.EngineError(r["engine_error"])
+            agg["evaluations"] += r["evals"]
+            agg["violations"].extend(r["violations"])
+        agg["custom_out_dir_cases"] = len(seqs)
     if prop in ("C07", "C19", "C02"):
         counts = [1, 15, 16, 17, 40] if tier == "quick" else [1, 2, 7, 15, 16, 17, 31, 32, 33, 40, 64, 65, 200, 600]
         tasks = [(n, prop) for n in counts]
@@ -926,8 +940,9 @@ def replay(prop, path):
         print("REPLAY property=%s: case passes on the current tree" % prop)
         return 0
     ops = body["case"]["ops"]
-    r1 = state_task((prop, "quick", ops))
-    r2 = state_task((prop, "quick", ops))
+    od = body["case"].get("out_dir")
+    r1 = state_task((prop, "quick", ops, od))
+    r2 = state_task((prop, "quick", ops, od))
     if "engine_error" in r1:
         print("ENGINE:", r1["engine_error"])
         return 2
